@@ -280,3 +280,38 @@ Theorem grace_after_every_unjailing_refuted :
     (exists v, find_val a (vals s') = Some v /\ v_jailed v = true).
 Proof. exact ObservationD.grace_after_every_unjailing_refuted_proof. Qed.
 Print Assumptions grace_after_every_unjailing_refuted.
+
+(** 14. Ties to the translated source of Keeper.Jail / JailInactiveValidators for the sentence
+    clauses: the jail record is read and written under the same (consensus) address, the reset window
+    is tested with [<], the record holds the new sentence and the block time, jailed-until is block
+    time + sentence, and a failing Jail does not stop the sweep. *)
+Theorem jail_record_shape_as_modelled :
+  Gen.C12.jail_log_read_key = Gen.C12.jail_log_write_key /\
+  Gen.C12.reset_window_cmp = "<"%string /\
+  Gen.C12.jail_record_written = ("sentence", "ctx.BlockTime()")%string /\
+  Gen.C12.jailed_until_is_block_time_plus_sentence = true /\
+  Gen.C12.sweep_collects_jail_errors = true.
+Proof. exact (conj eq_refl (conj eq_refl (conj eq_refl (conj eq_refl eq_refl)))). Qed.
+Print Assumptions jail_record_shape_as_modelled.
+
+
+(* --- source translation tie (GenFn) --- *)
+(* The Go function bodies named below are re-translated from the source on every check
+   (harness/cmd/extract/gotrans*.go -> GenFn/*.v, semantics of the Go subset: Trans/GoSem.v).
+   Each theorem states that the hand-written model function equals the translated body for all
+   inputs (hypotheses are Go type ranges / the 256-bit range of math.Int only); the proofs are in
+   Trans/C12Fn.v.  A readable change of the Go body breaks the proof, an unreadable one breaks the
+   translator.  See design/GoTrans.md. *)
+From Paloma Require Trans.GoSem Trans.GoSemFacts Trans.C12Fn.
+
+Theorem next_sentence_model_is_translation_of_source :
+  forall d : Z,
+  GenFn.DeriveJailSentence.deriveJailSentence d = GoSem.Val (KeepAlive.next_sentence d).
+Proof. exact Trans.C12Fn.next_sentence_eq. Qed.
+Print Assumptions next_sentence_model_is_translation_of_source.
+
+Theorem reset_threshold_model_is_translation_of_source :
+  forall d : Z, GoSem.in_i64 (d + Z.quot d 20) ->
+  GenFn.JailSentenceResetThreshold.calculateJailSentenceResetThreshold d = KeepAlive.reset_threshold d.
+Proof. exact Trans.C12Fn.reset_threshold_eq. Qed.
+Print Assumptions reset_threshold_model_is_translation_of_source.
